@@ -281,10 +281,36 @@ fn refl_strategy() -> impl Strategy<Value = Refl> {
 }
 
 fn refl_check(c: &Refl, st: &mut Stats) -> Check {
+    refl_check_mode(c, st, false)
+}
+
+/// `two`: the bounce partner is a second responder (own MAC and cookie key) instead of the
+/// same instance.
+fn refl_check_mode(c: &Refl, st: &mut Stats, two: bool) -> Check {
     Sut::reset();
     st.eval();
+    let mut net = c.scn.net.clone();
+    let mut cfg_v = c.scn.cfg.clone();
+    if two {
+        cfg_v.mac[5] ^= 0x5a;
+        cfg_v.mac[0] &= 0xfe;
+        cfg_v.key = [c.scn.cfg.key[0] ^ 0x1234_5678_9abc_def0, c.scn.cfg.key[1].rotate_left(13) ^ 1];
+        net.cmac = cfg_v.mac;
+    }
     let sut = Sut::new(&c.scn.cfg);
-    let m0 = match realize(&sut, &c.scn.net, &c.req) {
+    let sut_v = Sut::new(&cfg_v);
+    if !two {
+        // A TCP segment whose source endpoint equals its destination endpoint is its own mirror
+        // image: the bounced reply is indistinguishable from the peer's next data segment on the
+        // validated flow, which C07 *requires* to be answered. Outside this property's domain.
+        if let Req::TcpData { sport, dport, .. } = &c.req {
+            if net.cip == net.sip && sport == dport {
+                st.exclude("self-symmetric-tcp-tuple");
+                return Ok(());
+            }
+        }
+    }
+    let m0 = match realize(&sut, &net, &c.req) {
         Ok(f) => f,
         Err(_) => return Ok(()),
     };
@@ -298,8 +324,9 @@ fn refl_check(c: &Refl, st: &mut Stats) -> Check {
     // r1 is the responder's own reply (a reply-typed message). Bounce it back.
     let mut cur = r1.clone();
     let mut chain: Vec<Vec<u8>> = vec![];
-    for _ in 0..6 {
-        match sut.frame(&cur) {
+    for hop in 0..6 {
+        let who = if two && hop % 2 == 0 { &sut_v } else { &sut };
+        match who.frame(&cur) {
             Out::Reply(r) => {
                 chain.push(r.clone());
                 cur = r;
@@ -309,7 +336,7 @@ fn refl_check(c: &Refl, st: &mut Stats) -> Check {
         }
     }
     st.frames(2 + chain.len() as u64 + 1);
-    st.class(&format!("reflect:{}:{}-further-replies", c.req.kind(), chain.len()));
+    st.class(&format!("reflect{}:{}:{}-further-replies", if two { "(two responders)" } else { "(same responder)" }, c.req.kind(), chain.len()));
     st.nontrivial_hash(fnv(&m0));
     st.sample(|| json!({"request": hex(&m0[..m0.len().min(100)]), "own_reply": hex(&r1[..r1.len().min(100)]), "further_replies": chain.len()}));
     if chain.len() > 2 {
@@ -338,11 +365,13 @@ impl Prop for C12 {
         ctx.run_generated("marked", n, case_strategy(), check);
         let m = ctx.share(ctx.tier.n(300_000, 4_000_000));
         ctx.run_generated("reflect", m, refl_strategy(), refl_check);
+        ctx.run_generated("reflect2", m, refl_strategy(), |c, st| refl_check_mode(c, st, true));
     }
     fn replay(&self, stream: &str, case: &Value, st: &mut Stats) -> Check {
         let bad = |e: serde_json::Error| Failure::new(format!("bad case: {}", e));
         match stream {
             "reflect" => refl_check(&serde_json::from_value(case.clone()).map_err(bad)?, st),
+            "reflect2" => refl_check_mode(&serde_json::from_value(case.clone()).map_err(bad)?, st, true),
             _ => check(&serde_json::from_value(case.clone()).map_err(bad)?, st),
         }
     }
